@@ -376,6 +376,19 @@ def generate():
     m = re.search(r'main_data_buffer\[write_pos\.\.\]\.as_mut_ptr\(\)\s*as\s*\*mut\s*c_void,\s*(end_pos\s*-\s*write_pos),', recv)
     if not m:
         fail("recv: follow-up read size not found")
+    # buffer length after a follow-up read (C18): `main_data_buffer.set_len(<expr>)` right after the `libc::recv(...)` call
+    mr = re.search(r'libc::recv\(.*?\);\s*(?:if\s+result\s*>\s*0\s*\{)?\s*main_data_buffer\.set_len\(([^;]*)\);', recv, re.S)
+    if not mr:
+        fail("recv: set_len after the follow-up read not found")
+    arg = re.sub(r'\s+', ' ', mr.group(1).strip())
+    forms = {'write_pos + cmp::max(result, 0) as usize': 'wp + r', 'write_pos + result as usize': 'wp + r', 'end_pos': 'ep',
+             'write_pos + (result as usize)': 'wp + r'}
+    if arg not in forms:
+        fail(f"recv: set_len argument after the follow-up read has an unexpected shape: {arg}")
+    out.append("/-- buffer length set after a follow-up `recv` that returned `r` > 0 bytes at `wp` (requested up to `ep`) -/")
+    out.append(f"def recvSetLenAfter (wp r ep : Nat) : Nat := {forms[arg]}")
+    m2 = re.search(r'assert!\(end_pos\s*<=\s*main_data_buffer\.capacity\(\)\);\s*main_data_buffer\.set_len\(end_pos\);', recv)
+    out.append(f"def shape_recvSetLenBeforeRead : Bool := {'true' if m2 else 'false'}  -- set_len(end_pos) guarded by the capacity assert")
     # truncated message handling: legacy returns ChannelClosed; repaired code receives the next message
     m = re.search(r'cmp::Ordering::Equal\s*=>\s*return\s+Err\(UnixError::ChannelClosed\)', recv)
     out.append(f"def recvTruncatedIsClosed : Bool := {'true' if m else 'false'}")
